@@ -3,8 +3,10 @@ package props
 import (
 	"encoding/json"
 	"fmt"
+	"image"
 	"image/color"
 	"math"
+	"time"
 
 	"github.com/mandykoh/prism/linear"
 
@@ -169,6 +171,111 @@ func c14Chans(a int, k int) uint16 {
 	return uint16(uint64(a) * uint64(k-3) / 65 * 1)
 }
 
+// c14Images: alpha identity through the image transforms (every 16-bit alpha
+// once per image; the per-pixel model of the images is C10's business, here
+// only the alpha channel and premultiplied validity are observed).
+type c14ImgCase struct {
+	Space string `json:"space"`
+	Fn    string `json:"fn"`
+	Src   string `json:"src"`
+	Dst   string `json:"dst"`
+	Par   int    `json:"parallelism"`
+	Seed  uint64 `json:"content_seed"`
+}
+
+func c14ImageCheck(cs c14ImgCase) (bad bool, msg string) {
+	defer func() {
+		if p := recover(); p != nil {
+			bad, msg = true, fmt.Sprintf("panic in %+v: %v", cs, p)
+		}
+	}()
+	s := spaceByName(cs.Space)
+	rect := image.Rect(-3, 2, 253, 258) // 256 x 256 = every 16-bit alpha once
+	rng := core.NewRNG(int64(cs.Seed), "C14img")
+	var src image.Image
+	switch cs.Src {
+	case "NRGBA64":
+		m := image.NewNRGBA64(rect)
+		rng.Fill(m.Pix)
+		for i := 0; i < 65536; i++ {
+			m.Pix[i*8+6], m.Pix[i*8+7] = uint8(i>>8), uint8(i)
+		}
+		src = m
+	case "RGBA64":
+		m := image.NewRGBA64(rect)
+		for i := 0; i < 65536; i++ {
+			for k := 0; k < 3; k++ {
+				c := uint16(0)
+				if i > 0 {
+					c = uint16(rng.Intn(i + 1))
+				}
+				m.Pix[i*8+2*k], m.Pix[i*8+2*k+1] = uint8(c>>8), uint8(c)
+			}
+			m.Pix[i*8+6], m.Pix[i*8+7] = uint8(i>>8), uint8(i)
+		}
+		src = m
+	case "NRGBA":
+		m := image.NewNRGBA(rect)
+		rng.Fill(m.Pix)
+		for i := 0; i < 65536; i++ {
+			m.Pix[i*4+3] = uint8(i >> 8)
+		}
+		src = m
+	}
+	dst := newConcrete(cs.Dst, rect)
+	if cs.Fn == "LineariseImage" {
+		s.LineariseImage(dst, src, cs.Par)
+	} else {
+		s.EncodeImage(dst, src, cs.Par)
+	}
+	for y := rect.Min.Y; y < rect.Max.Y; y++ {
+		for x := rect.Min.X; x < rect.Max.X; x++ {
+			_, _, _, ain := src.At(x, y).RGBA()
+			var aout uint32
+			var o color.RGBA64
+			switch d := dst.(type) {
+			case *image.RGBA64:
+				o = d.RGBA64At(x, y)
+				aout = uint32(o.A)
+				if cs.Fn == "LineariseImage" && cs.Src != "NRGBA64" && (o.R > o.A || o.G > o.A || o.B > o.A) {
+					return true, fmt.Sprintf("%+v: pixel (%d,%d) %v linearised to %v, not validly premultiplied", cs, x, y, src.At(x, y), o)
+				}
+			case *image.NRGBA64:
+				aout = uint32(d.NRGBA64At(x, y).A)
+			case *image.RGBA:
+				aout, ain = uint32(d.RGBAAt(x, y).A), ain>>8
+			case *image.NRGBA:
+				aout, ain = uint32(d.NRGBAAt(x, y).A), ain>>8
+			}
+			if aout != ain {
+				return true, fmt.Sprintf("%+v: pixel (%d,%d) alpha %d became %d", cs, x, y, ain, aout)
+			}
+		}
+	}
+	return false, "ok"
+}
+
+func c14Images(r *core.Run) {
+	var cases []c14ImgCase
+	rng := core.NewRNG(r.Seed, "C14", "images")
+	for _, s := range libSpaces {
+		for _, fn := range []string{"LineariseImage", "EncodeImage"} {
+			for _, src := range []string{"NRGBA64", "RGBA64", "NRGBA"} {
+				for _, dst := range []string{"RGBA64", "NRGBA64", "RGBA", "NRGBA"} {
+					cases = append(cases, c14ImgCase{s.Name, fn, src, dst, 1 + rng.Intn(8), rng.U64()})
+				}
+			}
+		}
+	}
+	core.ParallelFor(len(cases), 16, func(i int) {
+		if bad, msg := c14ImageCheck(cases[i]); bad {
+			r.Violate("image", cases[i].Space+"/"+cases[i].Fn+"/"+cases[i].Dst+"<-"+cases[i].Src, msg, cases[i])
+		}
+		r.AddEvals(65536)
+	})
+	r.Obs("image_alpha_cases", len(cases))
+}
+
 func runC14(r *core.Run) {
 	r.Rule = "all 65536 alphas x 68 channel values <= alpha (0, 1, a-1, a + 64 spread) x 4 spaces x {LineariseColor, EncodeColor} x colour types; all 8-bit (channel, alpha) pairs through the 8-bit constructors; all codes for opaque agreement; float alpha sweep of C02's point list through every encoder of alpha; thorough: every (c,a) pair with c<=a for LineariseColor and every (c,a) pair for EncodeColor; non-trivial = distinct (space, a, c) with 0 < c < a < max"
 	r.Assumptions = []string{"'transparent decodes to zero' is demanded where transparency determines the colour (premultiplied and generic constructors); ColorFromNRGBA is checked for alpha exactness only (DESIGN.md C14 scope note)"}
@@ -275,11 +382,18 @@ func runC14(r *core.Run) {
 		}
 		r.AddEvals(int64(len(pts)))
 	})
+	c14Images(r)
 	if r.Thorough() {
 		c14Thorough(r)
 	}
-	r.Sample(map[string]any{"space": "srgb", "LineariseColor": color.RGBA64{R: 1000, G: 20000, B: 30000, A: 30000}, "result": libSpaces[0].Linearise(color.RGBA64{R: 1000, G: 20000, B: 30000, A: 30000})})
-	r.Sample(map[string]any{"space": "adobergb", "EncodeColor": color.RGBA64{R: 5, G: 77, B: 200, A: 201}, "result": libSpaces[1].Encode(color.RGBA64{R: 5, G: 77, B: 200, A: 201})})
+	if r.Variant == "" {
+		for _, v := range []string{"encfirst+rev", "decfirst"} {
+			r.RunVariantChild(v, 10*time.Minute, false)
+		}
+		r.Obs("fresh_process_variants", []string{"encfirst+rev", "decfirst"})
+	}
+	r.Sample(map[string]any{"space": "srgb", "LineariseColor": color.RGBA64{R: 1000, G: 20000, B: 30000, A: 30000}, "result": spaceByName("srgb").Linearise(color.RGBA64{R: 1000, G: 20000, B: 30000, A: 30000})})
+	r.Sample(map[string]any{"space": "adobergb", "EncodeColor": color.RGBA64{R: 5, G: 77, B: 200, A: 201}, "result": spaceByName("adobergb").Encode(color.RGBA64{R: 5, G: 77, B: 200, A: 201})})
 }
 
 func c14Thorough(r *core.Run) {
@@ -333,6 +447,14 @@ func c14Thorough(r *core.Run) {
 }
 
 func replayC14(stage string, raw json.RawMessage) (bool, string, error) {
+	if stage == "image" {
+		var ic c14ImgCase
+		if err := json.Unmarshal(raw, &ic); err != nil {
+			return false, "", err
+		}
+		bad, msg := c14ImageCheck(ic)
+		return bad, msg, nil
+	}
 	var cs c14Case
 	if err := json.Unmarshal(raw, &cs); err != nil {
 		return false, "", err
@@ -345,5 +467,5 @@ func replayC14(stage string, raw json.RawMessage) (bool, string, error) {
 }
 
 func init() {
-	core.Register(&core.Property{ID: "C14", Level: "exploration", Run: runC14, Replay: replayC14})
+	core.Register(&core.Property{ID: "C14", Level: "exploration", Run: runC14, Replay: replayC14, Child: variantChild("C14", "exploration", runC14)})
 }
